@@ -145,6 +145,10 @@ def apply_step(pool, step, cfg):
         a = pool[step[1]]
         U, S, V = yastn.svd(a, axes=(tuple(step[2]), tuple(step[3])), sU=step[4], nU=step[5])
         rec = U @ S @ V
+        # a hard-fused leg spans the full product space of its constituents, a meta-fused (or plain) operand only the sectors
+        # its blocks reach: the factorisations then differ by exactly-zero singular values (by design); they are dropped
+        if S.size:
+            S = (S > 1e-12 * float(S.norm(p='inf'))).apply_mask(S, axes=0)
         return [rec, S]
     if op == "qr":
         a = pool[step[1]]
